@@ -19,13 +19,15 @@ pub struct UncompressedAdapter;
 
 impl PixelDataReader for UncompressedAdapter {
     fn decode(&self, src: &dyn PixelDataObject, dst: &mut Vec<u8>) -> DecodeResult<()> {
-        // just flatten all fragments into the output vector
+        // flatten all fragments into the output vector,
+        // leaving out the byte which pads a frame of odd size to an even length
         let pixeldata = src
             .raw_pixel_data()
             .context(decode_error::MissingAttributeSnafu { name: "Pixel Data" })?;
+        let frame_size = native_frame_size(src);
 
         for fragment in pixeldata.fragments {
-            dst.extend_from_slice(&fragment);
+            dst.extend_from_slice(without_padding(&fragment, frame_size));
         }
 
         Ok(())
@@ -42,9 +44,29 @@ impl PixelDataReader for UncompressedAdapter {
             .frame_pixel_data(frame)
             .context(decode_error::FrameRangeOutOfBoundsSnafu)?;
 
-        dst.extend_from_slice(frame.as_ref());
+        dst.extend_from_slice(without_padding(frame.as_ref(), native_frame_size(src)));
 
         Ok(())
+    }
+}
+
+/// The number of bytes of one frame in native form,
+/// if the necessary attributes are available.
+fn native_frame_size(src: &dyn PixelDataObject) -> Option<usize> {
+    Some(
+        src.cols()? as usize
+            * src.rows()? as usize
+            * src.samples_per_pixel()? as usize
+            * (src.bits_allocated()? / 8) as usize,
+    )
+}
+
+/// Leave out the trailing byte of a fragment
+/// which pads a frame of odd size to an even length.
+fn without_padding(fragment: &[u8], frame_size: Option<usize>) -> &[u8] {
+    match frame_size {
+        Some(size) if size % 2 == 1 && fragment.len() == size + 1 => &fragment[..size],
+        _ => fragment,
     }
 }
 
@@ -91,6 +113,10 @@ impl PixelDataWriter for UncompressedAdapter {
 
         // Copy the data to the output
         dst.extend_from_slice(frame_data);
+        if frame_data.len() % 2 == 1 {
+            // add null byte to maintain even length
+            dst.push(0);
+        }
 
         // provide attribute changes
         Ok(vec![
